@@ -61,8 +61,8 @@ def run(ctx):
         return
     rows = parse_cases(res["out"])
     # ---- routing: M + G in one run (both blocks)
-    cfg = write_cfg(ctx, "GenGatewayHost.cfg.in", "gen_GenGatewayHost.cfg", DEVS=devset, BLOCKS='{"ids", "rest"}',
-                    INVS="PropertyHolds DiffIsAttributed DevsDetected Emit")
+    cfg = write_cfg(ctx, "GenGatewayHost.cfg.in", "gen_GenGatewayHost.cfg", DEVS=devset, BLOCKS='{"ids", "rest"}', LITE="TRUE" if ctx.quick else "FALSE",
+                    INVS="Checks")
     res = ctx.tlc_mc(SPEC, "GenGatewayHost.tla", cfg, timeout=3000, deadlock=False, workers=workers, coverage=not ctx.quick)
     if not res["ok"]:
         return
